@@ -1,0 +1,188 @@
+//go:build verif
+
+// Contracts for package field (arithmetic mod P), checked by /verif (vcgo).
+// Comment-only; excluded from normal builds.
+// val(fe) = fmP(e4(fe.m)) is the field element represented by fe (Montgomery form, R = 2^256).
+
+package field
+
+//@ type Element
+//@   inv e4(self.m) < P
+//@
+//@ func (*Element).Zero
+//@   props C01 C18
+//@   ensures val(fe) == 0 && result == fe
+//@   modifies fe.m
+//@
+//@ func (*Element).One
+//@   props C01 C18
+//@   ensures val(fe) == 1 && result == fe
+//@   modifies fe.m
+//@
+//@ func (*Element).Add
+//@   props C01 C18
+//@   ensures val(fe) == old(val(a)) + old(val(b)) && result == fe
+//@   modifies fe.m
+//@
+//@ func (*Element).Subtract
+//@   props C01 C18
+//@   ensures val(fe) == old(val(a)) - old(val(b)) && result == fe
+//@   modifies fe.m
+//@
+//@ func (*Element).Negate
+//@   props C01 C18
+//@   ensures val(fe) == -old(val(a)) && result == fe
+//@   modifies fe.m
+//@
+//@ func (*Element).Multiply
+//@   props C01 C18
+//@   ensures val(fe) == old(val(a)) * old(val(b)) && result == fe
+//@   modifies fe.m
+//@
+//@ func (*Element).Square
+//@   props C01 C18
+//@   ensures val(fe) == old(val(a)) * old(val(a)) && result == fe
+//@   modifies fe.m
+//@
+//@ func (*Element).Pow2k
+//@   props C01 C18
+//@   panics k == 0
+//@   ensures val(fe) == pow(old(val(a)), pow2(k)) && result == fe
+//@   loop 0 invariant 1 <= i && i <= k && val(fe) == pow(old(val(a)), pow2(i))
+//@   loop 0 modifies fe.m
+//@   using powsq_P(old(val(a)), i)
+//@   modifies fe.m
+//@
+//@ func (*Element).Set
+//@   props C01 C18
+//@   ensures val(fe) == old(val(a)) && same(fe.m, old(a.m)) && result == fe
+//@   modifies fe.m
+//@
+//@ func (*Element).SetBytes
+//@   props C01 C06 C18
+//@   ensures val(fe) == fp(os2ip(src)) && result0 == fe
+//@   ensures result1 == ite(os2ip(src) >= P, 1, 0)
+//@   modifies fe.m
+//@
+//@ func (*Element).SetCanonicalBytes
+//@   props C01 C06 C18
+//@   split case os2ip(src) < P
+//@   ensures os2ip(src) < P ==> result0 == fe && result1 == nil && val(fe) == fp(os2ip(src))
+//@   ensures os2ip(src) >= P ==> result0 == nil && result1 != nil && unchanged(fe.m)
+//@   modifies fe.m
+//@
+//@ func (*Element).MustSetCanonicalBytes
+//@   props C01 C18
+//@   panics os2ip(src) >= P
+//@   ensures val(fe) == fp(os2ip(src)) && result == fe
+//@   modifies fe.m
+//@
+//@ func (*Element).getBytes
+//@   props C01 C06
+//@   ensures os2ip(dst) == lift(old(val(fe)))
+//@   ensures result == dst[0:32]
+//@   modifies dst
+//@
+//@ func (*Element).Bytes
+//@   props C01 C06 C18
+//@   ensures len(result) == 32 && os2ip(result) == lift(val(fe))
+//@   fresh result
+//@
+//@ func (*Element).ConditionalSelect
+//@   props C01 C17 C18
+//@   ensures val(fe) == ite(ctrl == 0, old(val(a)), old(val(b))) && result == fe
+//@   ensures ctrl == 0 ==> same(fe.m, old(a.m))
+//@   ensures ctrl != 0 ==> same(fe.m, old(b.m))
+//@   modifies fe.m
+//@
+//@ func (*Element).ConditionalNegate
+//@   props C01 C17 C18
+//@   ensures val(fe) == ite(ctrl == 0, old(val(a)), -old(val(a))) && result == fe
+//@   modifies fe.m
+//@
+//@ func (*Element).Equal
+//@   props C01 C17
+//@   ensures result == ite(val(fe) == val(a), 1, 0)
+//@   using fm_inj_P(e4(fe.m), e4(a.m))
+//@
+//@ func (*Element).IsZero
+//@   props C01 C17
+//@   ensures result == ite(val(fe) == 0, 1, 0)
+//@   using fm_zero_P(e4(fe.m))
+//@
+//@ func (*Element).IsOdd
+//@   props C01 C17
+//@   ensures result == lift(val(fe)) % 2
+//@
+//@ func (*Element).uncheckedSetSaturated
+//@   props C01
+//@   requires e4(a) < P
+//@   ensures val(fe) == fp(old(e4(a))) && result == fe
+//@   modifies fe.m
+//@
+//@ func NewElementFrom
+//@   props C01 C18
+//@   ensures val(result) == val(other)
+//@   fresh result
+//@
+//@ func NewElementFromUint64
+//@   props C01
+//@   ensures val(result) == fp(l0)
+//@   fresh result
+//@
+//@ func NewElementFromCanonicalBytes
+//@   props C01 C06 C18
+//@   split case os2ip(src) < P
+//@   ensures os2ip(src) < P ==> result1 == nil && val(result0) == fp(os2ip(src))
+//@   ensures os2ip(src) >= P ==> result0 == nil && result1 != nil
+//@   fresh result0
+//@
+//@ func BytesAreCanonical
+//@   props C01 C13
+//@   ensures result <==> os2ip(src) < P
+//@
+//@ func reduceSaturated
+//@   props C01
+//@   ensures result == ite(old(e4(src)) >= P, 1, 0)
+//@   ensures e4(dst) == old(e4(src)) - ite(old(e4(src)) >= P, P, 0)
+//@   modifies dst
+//@
+//@ func (*Element).setShortBytes
+//@   props C01 C15
+//@   split len(src) in 0..31 else
+//@   panics len(src) >= 32
+//@   ensures val(fe) == fp(os2ip(src)) && result == fe
+//@   modifies fe.m
+//@
+//@ func (*Element).SetWideBytes
+//@   props C01 C15
+//@   split len(src) in 32..64 else
+//@   panics len(src) < 32 || len(src) > 64
+//@   ensures val(fe) == fp(os2ip(src)) && result == fe
+//@   modifies fe.m
+//@
+//@ func (*Element).Invert
+//@   props C01
+//@   ensures val(z) == pow(old(val(x)), P-2) && result == z
+//@   modifies z.m
+//@
+//@ func (*Element).pow3mod4
+//@   props C01 C15
+//@   ensures val(z) == pow(old(val(x)), (P-3)/4) && result == z
+//@   modifies z.m
+//@
+//@ func (*Element).SqrtRatio
+//@   props C01 C15
+//@   ensures result0 == z
+//@   ensures result1 == ite(pow(pow(old(val(u))*pow(old(val(v)),3), (P-3)/4)*old(val(u))*old(val(v)), 2)*old(val(v)) == old(val(u)), 1, 0)
+//@   ensures val(z) == pow(old(val(u))*pow(old(val(v)),3), (P-3)/4)*old(val(u))*old(val(v)) * ite(result1 == 1, 1, val(feC2))
+//@   modifies z.m
+//@
+//@ func (*Element).Sqrt
+//@   props C01 C06
+//@   ensures result0 == fe
+//@   ensures result1 == ite(issq(old(val(a))), 1, 0)
+//@   ensures result1 == 1 ==> val(fe)*val(fe) == old(val(a))
+//@   ensures result1 == 0 ==> val(fe) == 0
+//@   using euler_sqrt_P(old(val(a)))
+//@   modifies fe.m
